@@ -154,7 +154,7 @@ def handleRangeFold (j : Json) : Option Json := do
 def handleSumRange (j : Json) : Option Json := do
   let a ← (field? j "a") >>= getInt?
   let b ← (field? j "b") >>= getInt?
-  some (Json.mkObj [("closed", Json.num (JsonNumber.fromInt (C17.sumClosed a b))),
+  some (Json.mkObj [("closed", Json.num (JsonNumber.fromInt (C17.sumEmitted a b))),
                     ("sum", Json.num (JsonNumber.fromInt (C17.listSum (C17.intRange a b))))])
 
 /-! ### orchestration with stub rules: texts are state numbers, every stubbed stage appends its name to a trace -/
